@@ -12,6 +12,7 @@ package main
 // density itself and the class constants lie in the declared domain (O5).
 
 import (
+	"go/token"
 	"fmt"
 	"go/ast"
 	"go/constant"
@@ -226,7 +227,7 @@ func checkC19(p *Prog, r *Report) {
 	}
 
 	// ---------------------------------------------------------------- O3
-	r.Rule("C19.O3", "daily layer temperature is the mean of the sub-step values: the accumulator is reset per layer, takes the new interior value once per sub-step, the sub-step loop's trip count equals the divisor of the mean and the divisor in the diffusion number, and the mean becomes the next day's start value", 3)
+	r.Rule("C19.O3", "daily layer temperature is the mean of the sub-step values: the accumulator is reset per layer, takes the new interior value once per sub-step, the sub-step loop's trip count equals the divisor of the mean and the divisor in the diffusion number, and the mean becomes the next day's start value; nothing leaves the sub-step loop early", 4)
 	lo, hi, unit, why := loopBounds(x, outer)
 	trips := PZero()
 	okLoop := why == "" && unit
@@ -240,6 +241,22 @@ func checkC19(p *Prog, r *Report) {
 		kr = t.C.Denom().Int64()
 	}
 	r.Ob("substeps", p.Pos(outer.Stmt.Pos()), okLoop && isC && nTrips > 0 && kr == nTrips, fmt.Sprintf("sub-step loop runs %s times; the diffusion number divides the day by %d", polyOr(trips), kr))
+	// the trip count is only the number of sub-steps if nothing leaves the loop early
+	{
+		exits := ""
+		ast.Inspect(outer.Stmt, func(n ast.Node) bool {
+			switch t := n.(type) {
+			case *ast.BranchStmt:
+				if t.Tok == token.BREAK || t.Tok == token.GOTO {
+					exits += t.Tok.String() + " at " + p.Pos(t.Pos()) + "; "
+				}
+			case *ast.ReturnStmt:
+				exits += "return at " + p.Pos(t.Pos()) + "; "
+			}
+			return true
+		})
+		r.Ob("substeps:no-early-exit", p.Pos(outer.Stmt.Pos()), exits == "", "statements that leave the sub-step loop before its last iteration (the mean divides by the full count): "+orStr(exits, "none"))
+	}
 	var acc, mean, carry *Event
 	for _, e := range x.Events {
 		switch {
